@@ -226,7 +226,7 @@ func processORG(env *Pass1, operands []ast.Exp) {
 
 	size := numExp.Value // Value is int64
 	env.LOC = int32(size)
-	env.DollarPosition += uint32(size) // エントリーポイントのアドレスを加算
+	env.DollarPosition = uint32(size) // エントリーポイントのアドレスを設定 (LOC と同じ値)
 	// ORG does not emit ocode
 }
 
